@@ -26,7 +26,8 @@ def table_builder(R):
         if rty.startswith("core::result::Result<"):
             cands.append((bi, t, cb))
     if len(cands) != 1:
-        raise RoleLost("table builder: callee of build_sampler returning a Result (found %d)" % len(cands))
+        from ..roles import builds_adt
+        raise RoleLost("table builder: callee of build_sampler returning a Result (found %d)" % len(cands), wanted=builds_adt("SampleGenerator"))
     return bs, cands[0]
 
 
